@@ -65,9 +65,11 @@ def expect(lines, tkey="transcript_id", gkey="gene_id", subfeature="exon", dit=F
     def extent(recs, ft):
         seqids = {r["seqid"] for r in recs}
         strands = {r["strand"] for r in recs}
-        if len(seqids) != 1 or len(strands) != 1:
-            raise ValueError("generator contract: subfeatures of one transcript/gene share seqid and strand")
-        return {"featuretype": ft, "seqid": seqids.pop(), "strand": strands.pop(),
+        if len(seqids) != 1:
+            raise ValueError("generator contract: subfeatures of one transcript/gene share their seqid")
+        # exons on both strands (sense/antisense transcripts under one gene id, a trans-spliced transcript): the statement
+        # fixes the extent and the seqid; "the exons' strand" is not defined -> strand None = not judged
+        return {"featuretype": ft, "seqid": seqids.pop(), "strand": strands.pop() if len(strands) == 1 else None,
                 "start": min(int(r["start"]) for r in recs), "end": max(int(r["end"]) for r in recs)}
 
     derived, suppressed = {}, set()
